@@ -99,6 +99,23 @@ EvoSeq(w, declared) ==
            IN <<[how |-> "elem-add", w |-> Struct([w.fs EXCEPT ![i] =
                     Fld(w.fs[i].id, [l EXCEPT !.es = [j \in 1..Len(l.es) |-> Struct(InsAt(l.es[j].fs, Len(l.es[j].fs), UnknownOf(T_I32)))]])])]>>)
 
+\* unknown fields inside the struct VALUES of a map field and inside the struct elements of a set field
+MapValSeq(w) ==
+  LET n == Len(w.fs)
+      midx == {i \in 1..n : w.fs[i].x.k = "map" /\ w.fs[i].x.vt = T_STRUCT /\ Len(w.fs[i].x.kvs) > 0}
+      sidx == {i \in 1..n : w.fs[i].x.k = "set" /\ w.fs[i].x.et = T_STRUCT /\ Len(w.fs[i].x.es) > 0}
+      grow(v) == Struct(InsAt(v.fs, Len(v.fs), UnknownOf(T_BINARY)))
+  IN (IF midx = {} THEN <<>>
+      ELSE LET i == CHOOSE j \in midx : \A q \in midx : j <= q
+               mv == w.fs[i].x
+           IN <<[how |-> "mapval-add", w |-> Struct([w.fs EXCEPT ![i] =
+                    Fld(w.fs[i].id, [mv EXCEPT !.kvs = [j \in 1..Len(mv.kvs) |-> <<mv.kvs[j][1], grow(mv.kvs[j][2])>>]])])]>>)
+     \o (IF sidx = {} THEN <<>>
+         ELSE LET i == CHOOSE j \in sidx : \A q \in sidx : j <= q
+                  sv == w.fs[i].x
+              IN <<[how |-> "setelem-add", w |-> Struct([w.fs EXCEPT ![i] =
+                       Fld(w.fs[i].id, [sv EXCEPT !.es = [j \in 1..Len(sv.es) |-> grow(sv.es[j])]])])]>>)
+
 Case(sid, S, d, kind, how, w) ==
   LET ty == [ref |-> d.name]
       e  == Expect(S, ty, w, FALSE)
@@ -113,7 +130,7 @@ CasesOfDef(sid, S, d) ==
   LET ty == [ref |-> d.name]
       vals == [v \in 1..3 |-> Val(S, ty, v - 1, 0)]
       base == [v \in 1..3 |-> Case(sid, S, d, "base", "v" \o ToString(v - 1), vals[v])]
-      evo == LET es == EvoSeq(vals[2], {d.fields[q].id : q \in 1..Len(d.fields)}) \o BigSeq(vals[2], d.name) \o EnumSeq(S, d, vals[2]) IN [i \in 1..Len(es) |-> Case(sid, S, d, "evo", es[i].how, es[i].w)]
+      evo == LET es == EvoSeq(vals[2], {d.fields[q].id : q \in 1..Len(d.fields)}) \o BigSeq(vals[2], d.name) \o EnumSeq(S, d, vals[2]) \o MapValSeq(vals[2]) IN [i \in 1..Len(es) |-> Case(sid, S, d, "evo", es[i].how, es[i].w)]
       dflt == IF d.d = "union" THEN <<>>
               ELSE <<[sid |-> sid, ty |-> d.name, kind |-> "dflt", how |-> "default", w |-> Struct(<<>>),
                       bin |-> <<0>>, binle |-> <<0>>, cs |-> <<0>>,
